@@ -131,6 +131,9 @@ func NewDIDOps(kt string, code uint, name string) *DIDOps {
 		Patches: []interface{}{AddServicePatch("s3", "https://example.com/u2/"+name)}}).Build()
 	d.Req["Ux"] = (&OpSpec{Type: "update", Suffix: suffix, SignKey: d.Keys["u0"], NextUpdate: c("u1"), Code: code, From: ExpiredMark, Until: ExpiredMark + 1,
 		Patches: []interface{}{AddServicePatch("s1", "https://example.com/ux/"+name)}}).Build()
+	// an update whose anchoring window has not opened yet (anchorFrom = EarlyMark): not expired - its batch is refused and retried
+	d.Req["Ue"] = (&OpSpec{Type: "update", Suffix: suffix, SignKey: d.Keys["u0"], NextUpdate: c("u1"), Code: code, From: EarlyMark, Until: EarlyMark + 1,
+		Patches: []interface{}{AddServicePatch("early", "https://example.com/early")}}).Build()
 	d.Req["Rx"] = (&OpSpec{Type: "recover", Suffix: suffix, SignKey: d.Keys["r0"], NextRecov: c("r1"), NextUpdate: c("v0"), Code: code, From: ExpiredMark, Until: ExpiredMark + 1,
 		Patches: []interface{}{AddServicePatch("s2", "https://example.com/rx/"+name)}}).Build()
 	d.Req["Dx"] = (&OpSpec{Type: "deactivate", Suffix: suffix, SignKey: d.Keys["r0"], Code: code, From: ExpiredMark, Until: ExpiredMark + 1}).Build()
@@ -169,6 +172,9 @@ func NewRichDIDOps(kt string, code uint, name string) *DIDOps {
 
 // ExpiredMark is the anchorFrom value the harness' time validator treats as expired.
 const ExpiredMark = 7777
+
+// EarlyMark is the anchorFrom value the harness' time validator treats as not yet valid (ErrOperationEarly).
+const EarlyMark = 8888
 
 // TypeOf maps a request key (C, U, R, D, U2, Ux, ...) to the operation type.
 func TypeOf(k string) operation.Type {
